@@ -1,8 +1,8 @@
 """Shared plumbing for the checks: build, TLC invocation, evidence, known findings."""
 import json, os, re, shutil, subprocess, sys, tempfile, time
 
-VERIF = "/verif"
-REPO = "/repo"
+VERIF = os.environ.get("VERIF_ROOT", "/verif")
+REPO = os.environ.get("REPO_ROOT", "/repo")
 SPEC = os.path.join(VERIF, "spec")
 BUILD = os.path.join(VERIF, "build")
 TLA_CP = "/opt/veriftools/tla/tla2tools.jar:/opt/veriftools/tla/CommunityModules-deps.jar"
